@@ -42,6 +42,8 @@ var msgs = []*descriptorpb.DescriptorProto{
 		dyn.F("other", 11, dyn.String),
 		dyn.F("tags", 12, dyn.String, dyn.Rep()),
 		dyn.F("page_size", 13, dyn.Int32),
+		dyn.F("labels", 14, dyn.Message, dyn.Rep(), dyn.Of(".rt.Req.LabelsEntry")),
+		dyn.F("subs", 15, dyn.Message, dyn.Rep(), dyn.Of(".rt.Req.SubsEntry")),
 	),
 	dyn.Msg("Rsp",
 		dyn.F("name", 1, dyn.String),
@@ -49,6 +51,17 @@ var msgs = []*descriptorpb.DescriptorProto{
 	),
 }
 var enums = []*descriptorpb.EnumDescriptorProto{dyn.EnumT("Kind", "KIND_UNSPECIFIED", "ALPHA", "BETA")}
+
+func init() {
+	// Req.labels is map<string,string>, Req.subs map<string,Sub> (field paths must not step into a map entry)
+	for _, m := range msgs {
+		if m.GetName() == "Req" {
+			m.NestedType = append(m.NestedType,
+				dyn.MapEntry("LabelsEntry", dyn.F("key", 1, dyn.String), dyn.F("value", 2, dyn.String)),
+				dyn.MapEntry("SubsEntry", dyn.F("key", 1, dyn.String), dyn.F("value", 2, dyn.Message, dyn.Of(".rt.Sub"))))
+		}
+	}
+}
 
 // StringFields / TypedFields are the path-eligible field paths.
 var StringFields = []string{"name", "parent", "sub.name", "sub.inner.id", "other"}
